@@ -40,15 +40,13 @@ class TCPSink(PacketSink, OutMixIn):
 
         self.packet_arrived(packet)
 
-        if len(self.recv_buffer) == 1:
-            # in-order delivery: all data up to but not including
-            # `next_seq_expected' have been received
-            self.next_seq_expected = packet.packet_id + packet.size
-        else:
-            # out-of-order delivery or retransmissions: needs
-            # to go through the receive buffer and find out
-            # what the last in-order packet's sequence number is
+        if self.recv_buffer[0][0] == 0:
+            # all data up to but not including `next_seq_expected' have been
+            # received: the first merged range is the contiguous prefix
             self.next_seq_expected = self.recv_buffer[0][1]
+        else:
+            # the first segment is still missing
+            self.next_seq_expected = 0
 
 
         acknowledgement = Packet(
